@@ -8,10 +8,9 @@ CONSTANTS
   TTL = 12
   MaxTime = 26
   Lossy = FALSE
-  KeepLater = TRUE
-  Async <- NoPeers
+  KeepLater = FALSE
+  Async <- TwoPeers
 INVARIANT TypeOK
-INVARIANT RemoveSaysGoodbye
 INVARIANT GoodbyeHonoured
 INVARIANT NeverPartial
 INVARIANT NothingForeign
